@@ -210,7 +210,8 @@ def replay(job, rec):
             evals += 1
             try:
                 obs = getattr(cube, prop)
-                obs = float(obs) if e.get("nd") == 0 else np.asarray(obs, dtype=float).ravel()
+                if e.get("k") not in ("none", "any"):
+                    obs = float(obs) if e.get("nd") == 0 else np.asarray(obs, dtype=float).ravel()
             except Exception as ex:  # noqa
                 mism.append(Mismatch(prop_id, None, "Cube.%s raised %r" % (prop, ex), {},
                                      tags=dict(base_tags, prop="Cube." + prop,
